@@ -87,8 +87,10 @@ func (t *WeightedMerkleTrie) collectNodes(node Node, persistTrie *PersistTrie) e
 
 	if !node.ToCollect() {
 		if r, ok := node.(*routingNode); ok {
+			// (the hash of a branch that was never hashed, e.g. the root of a
+			// trie that was only updated in memory, is computed here)
 			node = &hashNode{
-				hash:   r.hash,
+				hash:   r.CalcHash(),
 				weight: r.weight,
 			}
 		}
